@@ -48,7 +48,9 @@ LEVEL_TEXT = (
     "exactly the configured value: None is None, 0 is 0), C16_never_before_bound, C16_idle_drop_exact(_event), "
     "C16_idle_release_bound (every value 0 <= i, zero included) and C16_idle_release_due, C16_next_line_rearms, "
     "C16_active_never_idle_dropped, C16_idle_drop_during_transfer, C16_data_wait_425(_stall), C16_data_connect_in_time, "
-    "C16_at_most_one_425_per_transfer, C16_data_stall_bound, C16_data_stall_release_bound, C16_data_progress_rearms, "
+    "C16_at_most_one_425_per_transfer, C16_data_stall_bound, C16_data_stall_release_bound, C16_data_progress_rearms and "
+    "C16_data_pause_not_counted (a data read/write is timed from the instant it starts, after the stream's throttle wait, however "
+    "long that wait is; control-channel counterpart: C16_next_line_rearms), "
     "C16_ctrl_write_stall_bound, C16_stall_ends_at_deadline, C16_dropped_at_deadline, C16_unset_* (None, and only None, means "
     "unbounded) and zero-is-zero-seconds everywhere: C16_idle_zero_drops_at_once / C16_idle_zero_release (control reads), "
     "C16_zero_socket_ends_at_greeting / C16_zero_socket_ctrl_immediate (control writes), C16_zero_socket_data_immediate (data "
@@ -64,8 +66,10 @@ LEVEL_NOTE = (
     "64 KiB flow-control window). Modelled, not verified: asyncio.wait_for/timeout semantics (deadline = start + T, "
     "T <= 0 immediate, the awaited coroutine never starts; sampled by a dedicated stream), task scheduling order at equal "
     "instants (ties are excluded from the corpus or tolerated, see docs/notes/C16.md), file back-end taking zero virtual time, "
-    "real-time promptness. No known finding: F16 (0 treated as 'unset' by StreamIO.__init__) is repaired; its recorded replay "
-    "is an ordinary corpus case."
+    "real-time promptness; throttle waits are fed to the model as observed (arming instants of the control readline, start "
+    "instants of the timed data reads), not predicted (C15 is about their length). F16 (0 treated as 'unset' by "
+    "StreamIO.__init__) is repaired, its recorded replay is an ordinary corpus case. F21 (a Throttle.wait helper task outlived a session released during a "
+    "throttle pause) is repaired too; the throttled groups that found it are ordinary corpus cases."
 )
 TRUSTED = [
     "asyncio.wait_for(aw, T) raises TimeoutError at exactly start + T on the loop clock (T <= 0: at once, T None: never); "
@@ -128,6 +132,10 @@ SCRIPTS = {
     "ctrl_not_reading": [(1, USER), (1, CHOLD), (H, FLOOD), (F(3, 2), PWD)],
     "ctrl_not_reading_release": [(1, USER), (1, CHOLD), (H, FLOOD), (F(3, 2), CRELEASE), (1, PWD)],
     "retr_noconn_then_ok": [(1, USER), (1, PASV), (1, RETR), (F(7, 2), DCONN), (H, RETR), (1, PWD)],
+    # a peer that never stalls: a command every second / an upload sent in one go with its EOF / a small download read at once
+    "chatty": [(1, USER), (1, PWD), (1, PWD), (1, PWD), (1, PWD), (1, PWD)],
+    "stor_burst": [(1, USER), (1, PASV), (H, DCONN), (H, STOR), (H, DSEND), (H, DSEND), (H, DEOF), (1, PWD)],
+    "retr_small": [(1, USER), (1, PASV), (H, DCONN), (H, ("cmd", "RETR a.txt")), (1, PWD), (3, PWD)],
 }
 QUICK_ALL_COMBOS = ("login", "login_pwd", "retr_noconn", "retr_hold", "stor", "ctrl_not_reading")
 
@@ -283,6 +291,14 @@ def run_case(script, k, cfg, throttle=None, horizon=HORIZON):
             return orig_readline(self)
 
         aioftp.common.StreamIO.readline = spy
+        data_reads = []
+        orig_read = aioftp.common.StreamIO.read
+
+        def spy_read(self, count=-1):
+            data_reads.append((F(loop.time()), id(self)))
+            return orig_read(self, count)
+
+        aioftp.common.StreamIO.read = spy_read
         peer = None
         drains = []
         try:
@@ -293,10 +309,15 @@ def run_case(script, k, cfg, throttle=None, horizon=HORIZON):
             await net.settle()
             data = []  # (client writer, server transport)
 
+            nread = [0]
+
             async def drain(rd):
                 try:
-                    while await rd.read(65536):
-                        pass
+                    while True:
+                        d_ = await rd.read(65536)
+                        if not d_:
+                            break
+                        nread[0] += len(d_)
                 except (ConnectionError, OSError):
                     pass
 
@@ -309,16 +330,16 @@ def run_case(script, k, cfg, throttle=None, horizon=HORIZON):
                     w.write(arg.encode() + b"\r\n")
                     events.append(("cmd", now, arg))
                     await net.settle()
-                    if arg in ("PASV", "EPSV"):
-                        for t, l in reversed(peer.log):
-                            if l and l.startswith("227"):
-                                m = re.search(r"\((\d+),(\d+),(\d+),(\d+),(\d+),(\d+)\)", l)
-                                port = int(m.group(5)) * 256 + int(m.group(6))
-                                break
-                            if l and l.startswith("229"):
-                                port = int(re.search(r"\|\|\|(\d+)\|", l).group(1))
-                                break
                 elif kind == "dconn":
+                    # the port of the latest 227/229 the peer has received by now (a write throttle delays replies)
+                    for t, l in reversed(peer.log):
+                        if l and l.startswith("227"):
+                            m = re.search(r"\((\d+),(\d+),(\d+),(\d+),(\d+),(\d+)\)", l)
+                            port = int(m.group(5)) * 256 + int(m.group(6))
+                            break
+                        if l and l.startswith("229"):
+                            port = int(re.search(r"\|\|\|(\d+)\|", l).group(1))
+                            break
                     try:
                         dr, dw = await net.open_connection("127.0.0.1", port)
                     except (ConnectionError, TypeError):
@@ -367,6 +388,7 @@ def run_case(script, k, cfg, throttle=None, horizon=HORIZON):
             key = next(iter(srv.connections), None)
             obs["t0"] = t0
             obs["t_stall"] = t_stall
+            obs["t_end"] = F(loop.time())  # end of the observation
             obs["events"] = events
             obs["replies"] = [(t, l) for t, l in peer.log if l is not None]
             # the release instant is the server-side close of the control transport; a peer that reads its control
@@ -377,12 +399,14 @@ def run_case(script, k, cfg, throttle=None, horizon=HORIZON):
             obs["ctrl_closed"] = closed_at.get(ctrl_st)
             obs["data_closed"] = [closed_at.get(st) for _, st in data]
             obs["data_conn_times"] = [t for kind_, t, _ in events if kind_ == "dconn"]
+            obs["data_read"] = nread[0]  # bytes the peer drained from its data connections
             # armed log of the control stream only = the stream object used by the first readline
             if armed:
                 cid = armed[0][1]
                 obs["armed"] = [t for t, i in armed if i == cid]
             else:
                 obs["armed"] = []
+            obs["data_reads"] = list(data_reads)  # start instants of the timed reads of the data streams
             me = asyncio.current_task()
             obs["ledger"] = {
                 "open_server_transports": [t.label for t in net.open_transports("server")],
@@ -396,6 +420,7 @@ def run_case(script, k, cfg, throttle=None, horizon=HORIZON):
             }
         finally:
             aioftp.common.StreamIO.readline = orig_readline
+            aioftp.common.StreamIO.read = orig_read
             try:
                 await srv.close()
             except BaseException:
@@ -419,21 +444,78 @@ def oq(x):
     return None if x is None else q(x)
 
 
+NO_NEXT_OP = F(10**6)  # "the next data operation never started": a throttle wait with no observed end
+
+
+def paced_upload(obs):
+    """a read-throttled session whose only transfer is ONE upload over a data connection made before the command
+    (scripts stor, stor_burst, epsv_stor): returns the index of the upload command, else None"""
+    cmds = [(i, a) for i, (kind, _, a) in enumerate(obs["events"]) if kind == "cmd" and xfer_dir(a)]
+    dconns = [i for i, (kind, _, _) in enumerate(obs["events"]) if kind == "dconn"]
+    if len(cmds) == 1 and xfer_dir(cmds[0][1]) == 1 and len(dconns) == 1 and dconns[0] < cmds[0][0]:
+        return cmds[0][0]
+    return None
+
+
+def paced_upload_events(obs, start, block=8192):
+    """the server's side of a throttled upload as model events, from the peer's sends and the OBSERVED instants at
+    which the timed data reads started (spy on StreamIO.read; the waits between them are the throttle's):
+    read j starts at r_j and completes at c_j = r_j when bytes (or the EOF) are already there, else at their arrival;
+    with data:  DataProgress c_j (r_{j+1} - c_j)   -- the next timed read starts after the throttle wait;
+    with EOF:   DataDone c_j.
+    The transfer starts at `start` (consumption of the command) and its first timed read at r_0:
+    DataProgress start (r_0 - start)."""
+    reads = [t for t, _ in obs["data_reads"]]
+    if not reads:
+        return []
+    E = obs["eof"]
+    arrivals = [(t, a if kind == "dsend" else None) for kind, t, a in obs["events"] if kind in ("dsend", "deof")]
+    out = [(start, [2, q(start), q(reads[0] - start), 0])]
+    i = 0
+    for j, r in enumerate(reads):
+        if i >= len(arrivals):
+            break  # nothing more comes: this read never completes
+        if arrivals[i][0] <= r:
+            c = r
+            if arrivals[i][1] is not None:
+                n = 0
+                while i < len(arrivals) and arrivals[i][0] <= r and arrivals[i][1] is not None and n + arrivals[i][1] <= block:
+                    n += arrivals[i][1]
+                    i += 1
+                eof = False
+            else:
+                i += 1
+                eof = True
+        else:
+            c, eof = arrivals[i][0], arrivals[i][1] is None
+            i += 1
+        if E is not None and c >= E:
+            break  # the session was gone before
+        if eof:
+            out.append((c, [3, q(c), q(0), 0]))
+            break
+        nxt = reads[j + 1] - c if j + 1 < len(reads) else NO_NEXT_OP
+        out.append((c, [2, q(c), q(nxt), 0]))
+    return out
+
+
 def model_events(obs, throttled=False):
     """the peer's steps as events of Model/Timeouts.v.
     cmd -> Line t d k (d = 0 unthrottled; with a read throttle t and d are taken from the observed arming
     instants of the control readline: consumption = max(arrival, armed), next arming = the following entry);
     dconn -> DataConnects [+ DataDone when the peer reads: a Down transfer completes at the same virtual instant];
     release -> DataDone; dsend -> DataProgress; deof -> DataDone.  DataDone/DataProgress are no-ops in the model
-    unless a transfer is moving, so they can be emitted unconditionally."""
-    evs = []
+    unless a transfer is moving, so they can be emitted unconditionally.
+    A read-throttled upload (paced_upload) is described from the server's side instead, see paced_upload_events."""
+    evs = []  # (time, event)
     armed = obs["armed"]
     ncmd = 0
     held = False
     noread = False
     have_data = False
     pending_dir = 0
-    for kind, t, arg in obs["events"]:
+    paced = paced_upload(obs) if throttled and obs.get("data_reads") is not None else None
+    for idx, (kind, t, arg) in enumerate(obs["events"]):
         if kind == "cmd":
             d = F(0)
             tt = t
@@ -444,30 +526,34 @@ def model_events(obs, throttled=False):
             k = xfer_dir(arg)
             if k:
                 pending_dir = k
-            evs.append([0, q(tt), q(d), k])
+            evs.append((tt, [0, q(tt), q(d), k]))
             if k == 2 and have_data and not held:
-                evs.append([3, q(tt), q(0), 0])
+                evs.append((tt, [3, q(tt), q(0), 0]))
+            if idx == paced:
+                evs += paced_upload_events(obs, tt)
         elif kind == "dconn":
             held = bool(arg)
             noread = arg == "noread"
             have_data = True
-            evs.append([1, q(t), q(0), 0])
+            evs.append((t, [1, q(t), q(0), 0]))
             if not held and pending_dir == 2:
-                evs.append([3, q(t), q(0), 0])  # a waiting Down transfer completes at once (no-op if none is waiting)
+                evs.append((t, [3, q(t), q(0), 0]))  # a waiting Down transfer completes at once (no-op if none is waiting)
         elif kind == "release":
             held = False
             # a peer that drains completes the transfer at once; one that reads only a buffer-full makes progress and stalls again
-            evs.append([2 if noread else 3, q(t), q(0), 0])
+            evs.append((t, [2 if noread else 3, q(t), q(0), 0]))
         elif kind == "flood":
-            evs.append([0, q(t), q(0), 0])  # the lines are consumed at t ...
-            evs.append([4, q(t), q(0), 0])  # ... and the reply writer blocks at t (peer not reading)
+            evs.append((t, [0, q(t), q(0), 0]))  # the lines are consumed at t ...
+            evs.append((t, [4, q(t), q(0), 0]))  # ... and the reply writer blocks at t (peer not reading)
         elif kind == "crelease":
-            evs.append([5, q(t), q(0), 0])
-        elif kind == "dsend":
-            evs.append([2, q(t), q(0), 0])
-        elif kind == "deof":
-            evs.append([3, q(t), q(0), 0])
-    return evs
+            evs.append((t, [5, q(t), q(0), 0]))
+        elif kind == "dsend" and paced is None:
+            evs.append((t, [2, q(t), q(0), 0]))
+        elif kind == "deof" and paced is None:
+            evs.append((t, [3, q(t), q(0), 0]))
+    if throttled:
+        evs.sort(key=lambda x: x[0])  # stable: consumption instants lag behind the peer's sends
+    return [e for _, e in evs]
 
 
 def dec_q(x):
@@ -482,7 +568,7 @@ def dec_state(m):
 # ------------------------------------------------------------------ the property oracle (independent of the model)
 def transfers_of(obs, wf):
     """which transfer commands got a data connection in time, from the peer's steps alone:
-    (command time, start of the data phase, index of the data connection) -- a connection made before the
+    (command time, start of the data phase, index of the data connection, command line) -- a connection made before the
     command is taken at the command; one made after it counts only strictly before command + wait_future_timeout;
     a connection that comes too late stays parked and can serve the next transfer command"""
     dconns = [(t, i) for i, (t, _) in enumerate([(t, a) for kind, t, a in obs["events"] if kind == "dconn"])]
@@ -494,15 +580,54 @@ def transfers_of(obs, wf):
         before = [x for x in free if x[0] <= t]
         if before:
             free.remove(before[0])
-            started.append((t, t, before[0][1]))
+            started.append((t, t, before[0][1], a))
             continue
         after = [x for x in free if x[0] > t and (wf is None or x[0] < t + max(wf, 0))]
         if after:
             free.remove(after[0])
-            started.append((t, after[0][0], after[0][1]))
+            started.append((t, after[0][0], after[0][1], a))
         else:
             refused.append(t)
     return started, refused
+
+
+def data_stall(obs, tr, sock):
+    """when does the PEER let the data connection of a started transfer rest, judged from its steps alone (upload: no
+    data sent and no EOF; download: not reading)?  Returns (first, final):
+      first = the earliest instant from which socket_timeout may legitimately give the connection up: the first instant
+              at which the peer has let it rest for socket_timeout; None = this peer never stalls on this connection for
+              that long (it sends everything and its EOF / reads everything): socket_timeout then never applies, however
+              long the server's own throttle pauses are;
+      final = the instant from which the peer lets it rest for good (None if it does not)."""
+    c, st, i, line = tr
+    s = max(sock, 0)
+    # the steps that concern data connection i: between its dconn and the next one
+    seen, mine, arg = -1, [], None
+    for kind, t, a in obs["events"]:
+        if kind == "dconn":
+            seen += 1
+            if seen == i:
+                arg = a
+        elif seen == i and kind in ("dsend", "deof", "release"):
+            mine.append((kind, t))
+    if xfer_dir(line) == 1:  # upload: the server reads
+        moves = [st] + [t for kind, t in mine if kind in ("dsend", "deof") and t >= st]
+        final = None if any(kind == "deof" for kind, _ in mine) else moves[-1]
+        for x, y in zip(moves, moves[1:]):
+            if y - x >= s:
+                return x + s, final
+        return (None if final is None else final + s), final
+    # download: the server writes; a peer that reads never stalls; a held one stalls once the windows are full,
+    # which only a file larger than them does
+    if not arg or line != RETR[1]:
+        return None, None
+    rel = [t for kind, t in mine if kind == "release" and t >= st]
+    if not rel:
+        return st + s, st
+    final = rel[0] if arg == "noread" else None
+    if rel[0] - st >= s:
+        return st + s, final
+    return (None if final is None else final + s), final
 
 
 def oracle(obs, cfg, eps=F(0)):
@@ -540,8 +665,11 @@ def oracle(obs, cfg, eps=F(0)):
         if idle_upper is None:
             idle_upper = prev + idle + eps
         bounds.append(idle_lower)
-    if sock is not None and started:
-        bounds.append(min(st for _, st, _ in started) + sock)
+    if sock is not None:
+        for tr in started:
+            b, _ = data_stall(obs, tr, sock)
+            if b is not None:
+                bounds.append(b)
     # a reply write that blocks because the peer does not read (flood while blind) is bounded by socket_timeout
     cw_upper = None
     for kind, t, _ in obs["events"]:
@@ -573,9 +701,13 @@ def oracle(obs, cfg, eps=F(0)):
     if wf is not None:
         for c in refused:
             dl = c + max(wf, 0)
-            if E is not None and E <= dl + eps:
-                continue  # the session legitimately ended first (or at that very instant: a race)
             hits = [x for x in r425 if dl <= x <= dl + eps]
+            if E is not None and E <= dl + eps:
+                # the session legitimately ended first (or at that very instant: a race), or inside the allowance:
+                # the 425 may or may not have been sent
+                for x in hits[:1]:
+                    r425.remove(x)
+                continue
             if len(hits) != 1:
                 bad.append(("c16-425-missing", f"transfer command at {c}, no data connection by {dl}: expected exactly one 425 in [{dl}, {dl + eps}], got {[str(x) for x in r425]}"))
             for x in hits:
@@ -589,23 +721,35 @@ def oracle(obs, cfg, eps=F(0)):
             continue
         if any(x <= t < y for x, y in blind) or isinstance(a, int):
             continue  # the peer is not reading: replies are not observable
+        if t + eps >= obs["t_end"]:
+            continue  # the allowance reaches beyond the end of the observation
         if not any(t <= rt <= t + eps for rt, _ in obs["replies"]):
             bad.append(("c16-command-unanswered", f"{a} at {t} got no reply although the session was up (closed at {E})"))
-    # ---- a data connection that stops moving is given up after socket_timeout
+    # ---- a data connection that stops moving is given up after socket_timeout (one whose peer keeps it moving is
+    # under no bound: the server's throttle pauses are not the peer's)
     if sock is not None:
-        for c, st, i in started:
-            moves = [st] + [t for kind, t, _ in obs["events"] if kind in ("dsend", "release", "deof") and t >= st]
-            last = max(moves)
+        for tr in started:
+            c, st, i, _line = tr
+            first, final = data_stall(obs, tr, sock)
             dc = obs["data_closed"][i]
+            # without throttle the first rest of socket_timeout ends it; with throttle pauses the server may sleep
+            # through a rest in the middle of the transfer, only the final one is certain to be noticed
+            due_by = first if eps == 0 else (None if final is None else final + max(sock, 0) + eps)
+            if due_by is None:
+                continue
             if dc is None:
-                bad.append(("c16-data-not-abandoned", f"socket_timeout={sock}: data connection of the transfer at {c} idle since {last}, still open at the horizon"))
-            elif dc > last + max(sock, 0) + eps:
-                bad.append(("c16-data-abandoned-late", f"socket_timeout={sock}: data connection idle since {last} closed only at {dc}"))
+                bad.append(("c16-data-not-abandoned", f"socket_timeout={sock}: data connection of the transfer at {c} at rest, due to be given up by {due_by}, still open at the horizon"))
+            elif dc > due_by:
+                bad.append(("c16-data-abandoned-late", f"socket_timeout={sock}: data connection of the transfer at {c} due to be given up by {due_by} closed only at {dc}"))
     # ---- clean-up after the release
     if E is not None:
         led = obs["ledger"]
         if led["open_server_transports"] or led["listeners"] != [2121] or led["connections"] or led["tasks"]:
-            bad.append(("c16-leak-after-release", f"after the release at {E}: {led}"))
+            only_pacers = not (led["open_server_transports"] or led["listeners"] != [2121] or led["connections"]) and all(
+                t == "Throttle.wait" for t in led["tasks"]
+            )
+            key = "c16-throttle-wait-task-outlives-session" if only_pacers else "c16-leak-after-release"
+            bad.append((key, f"after the release at {E}: {led}"))
     return bad
 
 
@@ -645,8 +789,21 @@ def compare(ctx, name, k, cfg, obs, pred, throttled=False, steps=()):
     return True
 
 
+def unmodelled(obs, throttle):
+    """throttled cases that are checked by the property oracle only: a write throttle delays the instants at which
+    the peer sees replies (425) and data; of the read-throttled uploads only the shape of paced_upload is described
+    to the model"""
+    if not throttle:
+        return False
+    if throttle.get("write_speed_limit"):
+        return any(kind == "cmd" and xfer_dir(a) for kind, _, a in obs["events"])
+    return any(kind == "dsend" for kind, _, _ in obs["events"]) and paced_upload(obs) is None
+
+
 def run_matrix(ctx, cases, throttle=None, eps_of=None, stream="matrix"):
-    """cases: list of (script name, k, cfg) or (script name, k, cfg, steps)"""
+    """cases: list of (script name, k, cfg) or (script name, k, cfg, steps).
+    Without an extracted model (ctx.exe is None: the model did not build) every case is still run against the real
+    server and judged by the property oracle alone."""
     obs_all = []
     model_in = []
     cases = [c if len(c) == 4 else (c[0], c[1], c[2], SCRIPTS[c[0]]) for c in cases]
@@ -655,10 +812,11 @@ def run_matrix(ctx, cases, throttle=None, eps_of=None, stream="matrix"):
         ctx.traces_impl += 1
         obs_all.append(obs)
         model_in.append((0, [[oq(cfg[0]), oq(cfg[1]), oq(cfg[2])], q(obs["t0"]), model_events(obs, throttled=bool(throttle))]))
-    out = ctx.model(model_in)
+    have_model = ctx.exe is not None
+    out = ctx.model(model_in) if have_model else [None] * len(model_in)
     xs = []
     for (name, k, cfg, steps), obs, mi, mo in zip(cases, obs_all, model_in, out):
-        pred = dec_state(mo)
+        pred = dec_state(mo) if have_model else {"ended": None, "r425": [], "xfer": 0, "armed": F(0)}
         ctx.case((stream, name, k, cfg, str(steps) if name == "random" else ""))
         ctx.count(f"script:{name}")
         ctx.count("outcome:" + ("never-released" if obs["eof"] is None else "released"))
@@ -666,15 +824,17 @@ def run_matrix(ctx, cases, throttle=None, eps_of=None, stream="matrix"):
             ctx.count("outcome:425")
         if pred["ended"]:
             ctx.count("cause:" + ["idle", "data-io", "ctrl-write", "wait-fail"][pred["ended"][1]])
-        if throttle and any(kind == "dsend" for kind, _, _ in obs["events"]):
-            ctx.count("throttled_oracle_only")  # throttle sleeps before data-stream reads are not modelled
+        if not have_model:
+            ctx.count("oracle_only_no_model")
+        elif unmodelled(obs, throttle):
+            ctx.count("throttled_oracle_only")
         else:
             compare(ctx, name, k, cfg, obs, pred, throttled=bool(throttle), steps=steps)
-        eps = eps_of(obs) if eps_of else F(0)
+        eps = eps_of(obs) if eps_of else (throttle_eps(obs, throttle) if throttle else F(0))
         for key, msg in oracle(obs, cfg, eps):
             ctx.violation(msg, {"key": key, "script": name, "k": k, "cfg": [None if c is None else str(c) for c in cfg],
                                 "throttle": throttle, "steps": ser_script(steps), "what": msg})
-        if len(xs) < 12 and k >= 3:
+        if have_model and len(xs) < 12 and k >= 3:
             xs.append((0, mi[1], mo))
         if (obs["r425"] or (pred["ended"] and pred["ended"][1] == 1) or throttle) and k >= 4 and (len(ctx.samples) < 2 or cfg[0] in (5, 30)):
           ctx.sample(
@@ -768,31 +928,78 @@ def wait_for_stream(ctx):
     ctx.count("wait_for_cases", len(cases))
 
 
-THROTTLE = {"read_speed_limit": 64}  # bytes/s on everything the server reads: delays are n/64 s, exact in binary
+# Throttled configurations.  A speed limit makes the server pause BEFORE a read/write (bytes so far / limit); the pause is
+# the server's own pacing, not peer silence, and is not under any timeout.  Each group has pauses LONGER than the
+# timeouts it is combined with, on the control channel and on the data channel, with a peer that never stalls.
+#   read64 : 64 B/s on everything the server reads.  Commands cost n/64 s (USER anonymous = 1/4 s); a 1000-byte block of
+#            an upload costs 15.6 s (> socket_timeout 2 and 5).
+#   read4  : 4 B/s.  USER anonymous = 16 bytes = 4 s (> idle_timeout 2), PWD = 5 bytes = 1.25 s (> 3/4): the commands of a
+#            chatty peer queue up behind the pauses and the session must not be dropped for idleness.
+#   write16: 16 B/s on everything the server writes: every reply costs 0.5 - 3 s (> socket_timeout 3/4 and 2) before the
+#            next reply or data block may be written, to a peer that reads everything at once.
+# All delays are exact binary fractions (limits are powers of two, times are multiples of 1/2).
+THROTTLES = {
+    "read64": (
+        {"read_speed_limit": 64},
+        ("login", "login_pwd", "login_slow", "retr_noconn", "retr_hold", "stor", "stor_burst"),
+        [(2, None, 2), (5, 5, 2), (30, 2, 5), (None, 2, 2), (5, None, None), (0, 5, 2), (5, 0, 2), (None, 5, None)],
+    ),
+    "read4": (
+        {"read_speed_limit": 4},
+        ("chatty", "login_pwd", "login_slow"),
+        [(2, None, 2), (2, 5, None), (5, 2, 2), (F(3, 4), None, None), (None, 2, 2)],
+    ),
+    "write16": (
+        {"write_speed_limit": 16},
+        ("chatty", "login_pwd", "retr_small", "list_ok", "retr_noconn"),
+        [(None, F(3, 4), 2), (5, F(3, 4), 2), (30, 2, 5), (None, 2, None), (5, None, 2)],
+    ),
+}
+THROTTLE = THROTTLES["read64"][0]
 
 
-def throttle_eps(obs):
-    """allowance for the throttled configuration: the read-throttle wait that precedes the arming of the
-    control readline is not under the timeout; it is at most (bytes read so far) / limit"""
-    nbytes = sum(len(a) + 2 for kind, _, a in obs["events"] if kind == "cmd")
-    nbytes += sum(a for kind, _, a in obs["events"] if kind == "dsend")
-    return F(nbytes, THROTTLE["read_speed_limit"])
+def throttle_eps(obs, throttle=None):
+    """allowance for a throttled configuration: the throttle waits that precede the server's reads (so the arming of
+    the control readline) and writes (so the instants at which the peer sees replies) are not under any timeout; they
+    add up to at most (bytes read so far) / read limit + (bytes written so far) / write limit"""
+    throttle = THROTTLE if throttle is None else throttle
+    eps = F(0)
+    rl, wl = throttle.get("read_speed_limit"), throttle.get("write_speed_limit")
+    if rl:
+        nbytes = sum(len(a) + 2 for kind, _, a in obs["events"] if kind == "cmd")
+        nbytes += sum(a for kind, _, a in obs["events"] if kind == "dsend")
+        eps += F(nbytes, rl)
+    if wl:
+        nbytes = sum(len(l.encode()) + 2 for _, l in obs["replies"]) + obs.get("data_read", 0)
+        eps += F(nbytes, wl)
+    return eps
+
+
+def throttled_cases(thorough=False):
+    for tag, (thr, names, cfgs) in THROTTLES.items():
+        if thorough:  # every combination of the values that are shorter / longer than the group's pauses
+            cfgs = cfgs + [c for c in itertools.product((None, F(3, 4), 2, 5), (None, F(3, 4), 2, 5), (None, 2)) if c not in cfgs]
+        cases = [(name, k, cfg) for name in names for cfg in cfgs for k in range(1, len(SCRIPTS[name]) + 1)]
+        yield tag, thr, cases
 
 
 def correspondence(ctx, thorough=None):
     rng = ctx.rng
     thorough = (ctx.tier == "thorough") if thorough is None else thorough
+    have_model = ctx.exe is not None
     ctx.extra["rule"] = (
         "cases = script (19 scripted sessions: login, PWD, PASV/EPSV + RETR/STOR/LIST/MLSD with the data channel connected "
         "early / late / never / held) x prefix length k (the peer stalls after k steps: every event index) x (idle, socket, "
         "wait_future) in {None,0,2,5,30}^3 (all 125 for 6 scripts, a covering sample for the others in the quick tier; all in "
-        "thorough) + the witnesses of the repaired finding F16 (idle_timeout=0 / socket_timeout=0) as ordinary cases + one "
-        "read-throttled configuration + StreamIO effective-timeout pairs + wait_for cases. A case is non-trivial when its "
+        "thorough) + the witnesses of the repaired finding F16 (idle_timeout=0 / socket_timeout=0) as ordinary cases + three "
+        "throttled groups (read 64 B/s, read 4 B/s, write 16 B/s: throttle pauses longer than the timeouts on the control and "
+        "the data channel, peers that never stall) + StreamIO effective-timeout pairs + wait_for cases. A case is non-trivial when its "
         "(script, k, configuration) triple is new; every case runs the real server once on the virtual clock."
     )
     xs = []
-    xs += effective_timeouts_stream(ctx)
-    wait_for_stream(ctx)
+    if have_model:
+        xs += effective_timeouts_stream(ctx)
+        wait_for_stream(ctx)
     # first, so that a return of the repaired defect is reported with its recorded replay
     fw = former_witnesses()
     ctx.count("former_witness_cases", len(fw))
@@ -811,16 +1018,17 @@ def correspondence(ctx, thorough=None):
                 for k in range(3, len(sc) + 1):
                     cases.append(("random", k, cfg, sc))
         ctx.count("random_scripts", 160)
+    # idle_timeout = 0 together with socket_timeout = 0: two deadlines at the very start of the session, whose order
+    # is a race in asyncio; run those last, so that the first failing input reported is preferably a deterministic one
+    cases.sort(key=lambda c: c[2][0] == 0 and c[2][1] == 0)
     ctx.count("matrix_cases", len(cases))
     xs += run_matrix(ctx, cases)
-    # one throttled configuration: the read-throttle wait delays the arming of the idle timer
-    tcases = []
-    for name in ("login", "login_pwd", "login_slow", "retr_noconn", "retr_hold", "stor"):
-        for cfg in [(2, None, 2), (5, 5, 2), (30, 2, 5), (None, 2, 2), (5, None, None), (0, 5, 2), (5, 0, 2)]:
-            for k in range(1, len(SCRIPTS[name]) + 1):
-                tcases.append((name, k, cfg))
-    ctx.count("throttled_cases", len(tcases))
-    xs += run_matrix(ctx, tcases, throttle=THROTTLE, eps_of=throttle_eps, stream="throttled")
+    # throttled configurations: speed limit x timeout, throttle pauses longer than the timeouts, peers that never stall
+    for tag, thr, tcases in throttled_cases(thorough):
+        ctx.count(f"throttled_cases:{tag}", len(tcases))
+        xs += run_matrix(ctx, tcases, throttle=thr, stream="throttled-" + tag)
+    if not have_model:
+        return
     from .. import core
 
     ok, out = core.vm_crosscheck(EXTRACT, xs[:40])
@@ -833,15 +1041,18 @@ def correspondence(ctx, thorough=None):
         "cannot exhibit: the theorems and the agreement with the real server are about virtual time"
     )
     ctx.extra["epsilon"] = (
-        "0 in virtual time without throttle (exact equality is checked). Throttled configuration (read_speed_limit=64 B/s): "
-        "the throttle sleep precedes the timed read and is not under the timeout, so a release may come up to "
-        "(bytes read so far)/limit later than the bound; the model is given the observed arming instants and must still "
-        "predict the release exactly."
+        "0 in virtual time without throttle (exact equality is checked). Throttled configurations (read 64 B/s, read 4 B/s, "
+        "write 16 B/s): the throttle sleep precedes the timed read/write and is not under the timeout, so a release may come up to "
+        "(bytes read so far)/read limit + (bytes written so far)/write limit later than the bound and never earlier; the model is "
+        "given the observed start instants of the timed reads and must still predict the release exactly (write-throttled "
+        "transfers: property oracle only)."
     )
 
 
 def search(ctx):
-    if ctx.violations or ctx.tier == "thorough" or ctx.exe is None:
+    """failing-input search when an obligation or the correspondence is broken: the thorough corpus, judged by the
+    property oracle (and by the model when there is one)"""
+    if ctx.violations or (ctx.tier == "thorough" and ctx.exe is not None and ctx.traces_impl):
         return
     try:
         correspondence(ctx, thorough=True)
@@ -867,7 +1078,7 @@ def replay(ctx, data):
     print("events:", [(k, str(t), a) for k, t, a in obs["events"]])
     print("replies:", [(str(t), l) for t, l in obs["replies"]])
     print("eof:", obs["eof"], "data_closed:", obs["data_closed"], "ledger:", obs["ledger"])
-    bad = oracle(obs, cfg, throttle_eps(obs) if thr else F(0))
+    bad = oracle(obs, cfg, throttle_eps(obs, thr) if thr else F(0))
     for key, msg in bad:
         print("ORACLE:", key, msg)
     return not any(key == r.get("key") for key, _ in bad) and not bad
